@@ -81,7 +81,10 @@ VARIABLES
   ranPhase,  \* steps applied so far in the running phase
   invPhase,  \* steps invoked so far in the running phase
   phaseSet,  \* steps that existed when the running phase began
-  phases     \* number of completed step phases
+  phases,    \* number of completed step phases
+  \* ---- structural updates of the process set
+  fresh,     \* processes created since the last loop head
+  sops       \* structural operation carried by the update in flight of a process
 
 sched == <<now, endT, force, lastForce, pc, calls, live, front, toPoll,
            fullStep, quiet, due>>
@@ -89,7 +92,10 @@ data  == <<val, ver, pver, entry, skipped, sumTs>>
 emitv == <<emitStep, emitNext, lastRow, rowsAt>>
 stepv == <<liveSteps, deps, seqSteps, layers, layerTodo, staged, ranPhase,
            invPhase, phaseSet, phases>>
-vars  == <<sched, data, emitv, stepv>>
+structv == <<fresh, sops>>
+vars  == <<sched, data, emitv, stepv, structv>>
+
+NoOp == [op |-> "none", q |-> "-"]
 
 NoUpd == [v \in {} |-> 0]
 
@@ -139,11 +145,13 @@ InitWith(L, V0, LS, D, SQ, ES, T0) ==
   /\ liveSteps = LS /\ deps = D /\ seqSteps = SQ
   /\ layers = <<>> /\ layerTodo = {} /\ staged = <<>>
   /\ ranPhase = {} /\ invPhase = {} /\ phaseSet = {} /\ phases = 0
+  /\ fresh = {} /\ sops = [p \in Procs |-> NoOp]
 
 -----------------------------------------------------------------------------
 (* run_for entry                                                           *)
 
 Call(iv, f) ==
+  /\ UNCHANGED structv
   /\ pc = "idle" /\ calls < MaxCalls /\ now + iv <= Horizon
   /\ endT' = now + iv /\ force' = f /\ lastForce' = f
   /\ calls' = calls + 1 /\ pc' = "loop"
@@ -157,19 +165,23 @@ LoopHead ==
   /\ IF now < endT \/ force
        THEN /\ pc' = "poll"
             /\ front' = [p \in live |->
-                           IF p \in DOMAIN front THEN front[p]
+                           IF p \in DOMAIN front /\ p \notin fresh THEN front[p]
                            ELSE EmptyFront(now)]
             /\ entry' = [p \in Procs |->
-                           IF p \in live \ DOMAIN front THEN now ELSE entry[p]]
+                           IF p \in live /\ (p \notin DOMAIN front \/ p \in fresh)
+                             THEN now ELSE entry[p]]
             /\ skipped' = [p \in Procs |->
-                           IF p \in live \ DOMAIN front THEN 0 ELSE skipped[p]]
+                           IF p \in live /\ (p \notin DOMAIN front \/ p \in fresh)
+                             THEN 0 ELSE skipped[p]]
             /\ sumTs' = [p \in Procs |->
-                           IF p \in live \ DOMAIN front THEN 0 ELSE sumTs[p]]
+                           IF p \in live /\ (p \notin DOMAIN front \/ p \in fresh)
+                             THEN 0 ELSE sumTs[p]]
+            /\ fresh' = {} /\ UNCHANGED sops
             /\ toPoll' = live /\ fullStep' = Inf /\ quiet' = {}
             /\ pver' = ver
        ELSE /\ pc' = "idle"
             /\ UNCHANGED <<front, entry, skipped, sumTs, toPoll, fullStep,
-                           quiet, pver>>
+                           quiet, pver, structv>>
   /\ UNCHANGED <<now, endT, force, lastForce, calls, live, due, val, ver,
                  emitv, stepv>>
 
@@ -193,6 +205,7 @@ Polling(p) == pc = "poll" /\ p \in toPoll
 IsDue(p)   == front[p].time <= now
 
 PollBusy(p) ==
+  /\ UNCHANGED structv
   /\ Polling(p) /\ ~IsDue(p)
   /\ toPoll' = toPoll \ {p}
   /\ fullStep' = Min(fullStep, front[p].time - now)
@@ -201,7 +214,8 @@ PollBusy(p) ==
 
 (* the process meets its condition: its update u is computed now, for the  *)
 (* interval [front.time, Future], and stays in flight until Future          *)
-PollInvokeWith(p, ets, u, id) ==
+PollInvokeWith(p, ets, u, id, op) ==
+  /\ sops' = [sops EXCEPT ![p] = op] /\ UNCHANGED fresh
   /\ Polling(p) /\ IsDue(p)
   /\ FutureOf(p, ets) <= endT
   /\ toPoll' = toPoll \ {p}
@@ -212,11 +226,13 @@ PollInvokeWith(p, ets, u, id) ==
   /\ fullStep' = Min(fullStep, FutureOf(p, ets) - now)
   /\ UNCHANGED <<now, endT, force, lastForce, pc, calls, live, quiet, due,
                  val, ver, pver, entry, skipped, sumTs, emitv, stepv>>
-PollInvoke(p, ts, u, id) == PollInvokeWith(p, Ets(p, ts), u, id)
+PollInvoke(p, ts, u, id) == PollInvokeWith(p, Ets(p, ts), u, id, NoOp)
+PollInvokeS(p, ts, u, id, op) == PollInvokeWith(p, Ets(p, ts), u, id, op)
 
 (* the process does not meet its condition: it contributes nothing and is  *)
 (* advanced to the time of the next event                                   *)
 PollQuietWith(p, ets) ==
+  /\ UNCHANGED structv
   /\ Polling(p) /\ IsDue(p)
   /\ FutureOf(p, ets) <= endT
   /\ toPoll' = toPoll \ {p}
@@ -228,6 +244,7 @@ PollQuiet(p, ts) == PollQuietWith(p, Ets(p, ts))
 
 (* the interval does not fit into this (non-forced) call                    *)
 PollDeferWith(p, ets) ==
+  /\ UNCHANGED structv
   /\ Polling(p) /\ IsDue(p)
   /\ FutureOf(p, ets) > endT
   /\ toPoll' = toPoll \ {p}
@@ -238,6 +255,7 @@ PollDeferWith(p, ets) ==
 PollDefer(p, ts) == PollDeferWith(p, Ets(p, ts))
 
 PollDone ==
+  /\ UNCHANGED structv
   /\ pc = "poll" /\ toPoll = {}
   /\ pc' = "advance"
   /\ UNCHANGED <<now, endT, force, lastForce, calls, live, front, toPoll,
@@ -259,6 +277,7 @@ AdvanceQuiet(n) ==
 
 (* nothing ran and nothing is in flight: every polled process was quiet     *)
 AdvanceJump ==
+  /\ UNCHANGED structv
   /\ pc = "advance" /\ fullStep = Inf
   /\ LET cands == {endT} \cup
                   {front[p].time : p \in
@@ -275,6 +294,7 @@ AdvanceJump ==
 
 (* the nearest event lies within the call: go there and apply what is due   *)
 AdvanceStep ==
+  /\ UNCHANGED structv
   /\ pc = "advance" /\ fullStep # Inf /\ now + fullStep <= endT
   /\ LET n == now + fullStep
      IN /\ now' = n
@@ -289,6 +309,7 @@ AdvanceStep ==
 
 (* every pending event lies beyond the end of the call                      *)
 AdvanceEnd ==
+  /\ UNCHANGED structv
   /\ pc = "advance" /\ fullStep # Inf /\ now + fullStep > endT
   /\ now' = endT
   /\ IF "QuietStuck" \in Dev THEN UNCHANGED <<front, skipped>>
@@ -304,19 +325,55 @@ AdvanceEnd ==
 ApplyUpd(v, u) ==
   [x \in DOMAIN v |-> IF x \in DOMAIN u THEN v[x] + u[x] ELSE v[x]]
 
+\* the process set after the structural operation op
+LiveAfter(L, op) ==
+  CASE op.op = "del" -> L \ {op.q}
+    [] op.op = "add" -> L \cup {op.q}
+    [] OTHER -> L
+
+(* one update of the batch is applied; it may carry a structural operation  *)
+(* on the process set: a deleted process loses an update that is still in    *)
+(* flight (one already collected for this batch stays in `due`), a created   *)
+(* process starts afresh at the next loop head                               *)
+\* a created process declares its variables: those that do not exist yet
+\* appear with their default 0 (op.vars is given by recorded operations)
+NewVars(op) == IF op.op = "add" /\ "vars" \in DOMAIN op
+                 THEN {op.vars[i] : i \in 1..Len(op.vars)} ELSE {}
+Declare(v, op) == [x \in DOMAIN v \cup NewVars(op) |-> IF x \in DOMAIN v THEN v[x] ELSE 0]
+
 ApplyOne(p) ==
   /\ pc = "apply" /\ p \in due
   /\ due' = due \ {p}
-  /\ val' = ApplyUpd(val, front[p].upd)
+  /\ val' = Declare(ApplyUpd(val, front[p].upd), sops[p])
   /\ ver' = ver + 1
   /\ sumTs' = [sumTs EXCEPT ![p] = @ + front[p].ts]
-  /\ front' = [front EXCEPT ![p].pend = "none", ![p].upd = NoUpd,
-                            ![p].start = front[p].time]
-  /\ UNCHANGED <<now, endT, force, lastForce, pc, calls, live, toPoll,
+  /\ LET op == sops[p] IN
+       /\ live' = LiveAfter(live, op)
+       /\ fresh' = IF op.op = "add" THEN fresh \cup {op.q}
+                    ELSE IF op.op = "del" THEN fresh \ {op.q} ELSE fresh
+       /\ front' = [x \in DOMAIN front |->
+                      IF x = p THEN [front[p] EXCEPT !.pend = "none", !.upd = NoUpd,
+                                                     !.start = front[p].time]
+                      ELSE IF op.op = "del" /\ x = op.q /\ x \notin due
+                        THEN [front[x] EXCEPT !.pend = "none", !.upd = NoUpd]
+                      ELSE front[x]]
+  /\ sops' = [sops EXCEPT ![p] = NoOp]
+  /\ UNCHANGED <<now, endT, force, lastForce, pc, calls, toPoll,
                  fullStep, quiet, pver, entry, skipped, emitv,
                  stepv>>
 
+\* the update of a process that was deleted earlier in this batch may also
+\* be discarded instead of being applied
+DropDue(p) ==
+  /\ pc = "apply" /\ p \in due /\ p \notin live
+  /\ due' = due \ {p}
+  /\ front' = [front EXCEPT ![p].pend = "none", ![p].upd = NoUpd]
+  /\ sops' = [sops EXCEPT ![p] = NoOp]
+  /\ UNCHANGED <<now, endT, force, lastForce, pc, calls, live, toPoll, fullStep,
+                 quiet, data, emitv, stepv, fresh>>
+
 ApplyDone ==
+  /\ UNCHANGED structv
   /\ pc = "apply" /\ due = {}
   /\ pc' = "steps"
   /\ UNCHANGED <<now, endT, force, lastForce, calls, live, front, toPoll,
@@ -326,6 +383,7 @@ ApplyDone ==
 (* The step phase (run_steps): at construction and after every batch        *)
 
 StepsBegin ==
+  /\ UNCHANGED structv
   /\ pc \in {"steps", "construct"}
   /\ layers' = LayersOf(liveSteps, deps, seqSteps)
   /\ phaseSet' = liveSteps
@@ -340,6 +398,7 @@ InSteps == pc \in {"layer", "csteps"}
 
 \* open the next layer: its steps that still exist are to be invoked
 LayerOpen ==
+  /\ UNCHANGED structv
   /\ InSteps /\ layerTodo = {} /\ staged = <<>> /\ layers # <<>>
   /\ layerTodo' = Head(layers) \cap liveSteps
   /\ layers' = Tail(layers)
@@ -350,6 +409,7 @@ LayerOpen ==
 
 \* a step is invoked with timestep 0; its update u is staged
 StepInvoke(s, u, id) ==
+  /\ UNCHANGED structv
   /\ InSteps /\ s \in layerTodo
   /\ layerTodo' = layerTodo \ {s}
   /\ staged' = Append(staged, [step |-> s, upd |-> u, uid |-> id])
@@ -359,6 +419,7 @@ StepInvoke(s, u, id) ==
 
 \* the staged updates of the layer are applied, in invocation order
 LayerApplyOne ==
+  /\ UNCHANGED structv
   /\ InSteps /\ layerTodo = {} /\ staged # <<>>
   /\ val' = ApplyUpd(val, Head(staged).upd)
   /\ ver' = ver + 1
@@ -369,6 +430,7 @@ LayerApplyOne ==
                  phaseSet, phases>>
 
 StepsEnd ==
+  /\ UNCHANGED structv
   /\ InSteps /\ layerTodo = {} /\ staged = <<>> /\ layers = <<>>
   /\ phases' = phases + 1
   /\ ranPhase' = {} /\ invPhase' = {}
@@ -383,6 +445,7 @@ StepsEnd ==
 (* per passed deadline, which the specification treats as one row.          *)
 
 EmitInitial ==
+  /\ UNCHANGED structv
   /\ pc = "cemit"
   /\ lastRow' = now /\ rowsAt' = 1
   /\ pc' = "idle"
@@ -390,6 +453,7 @@ EmitInitial ==
                  fullStep, quiet, due, data, emitStep, emitNext, stepv>>
 
 Emit ==
+  /\ UNCHANGED structv
   /\ pc = "emit"
   /\ IF emitStep = 1
        THEN /\ lastRow' = now /\ rowsAt' = 1 /\ UNCHANGED emitNext
@@ -408,7 +472,13 @@ Emit ==
 (* timestep it was handed; processes in SharedW also add 1 to "s".  Every   *)
 (* step s adds 1 to its own counter variable named s.                       *)
 
-CONSTANTS SharedW
+CONSTANTS SharedW, Directors, Spare
+
+\* structural operations a director may attach to an update
+StructOps(p) ==
+  IF p \notin Directors THEN {NoOp}
+  ELSE {NoOp} \cup {[op |-> "del", q |-> q] : q \in (live \ {p})}
+              \cup {[op |-> "add", q |-> q] : q \in {x \in Spare : x \notin live /\ val[x] = 0}}
 
 ProcUpd(p, h) ==
   [v \in ({p} \cup IF p \in SharedW THEN {"s"} ELSE {}) |->
@@ -420,12 +490,12 @@ Next ==
   \/ LoopHead
   \/ \E p \in Procs : PollBusy(p)
   \/ \E p \in Procs, ts \in TS :
-        \/ PollInvoke(p, ts, ProcUpd(p, Handed(p, ts)), 0)
+        \/ \E op \in StructOps(p) : PollInvokeS(p, ts, ProcUpd(p, Handed(p, ts)), 0, op)
         \/ PollQuiet(p, ts)
         \/ PollDefer(p, ts)
   \/ PollDone
   \/ AdvanceJump \/ AdvanceStep \/ AdvanceEnd
-  \/ \E p \in Procs : ApplyOne(p)
+  \/ \E p \in Procs : ApplyOne(p) \/ DropDue(p)
   \/ ApplyDone
   \/ StepsBegin \/ LayerOpen \/ LayerApplyOne \/ StepsEnd
   \/ \E s \in Steps : StepInvoke(s, StepUpd(s), 0)
@@ -436,12 +506,12 @@ Internal ==
   \/ LoopHead
   \/ \E p \in Procs : PollBusy(p)
   \/ \E p \in Procs, ts \in TS :
-        \/ PollInvoke(p, ts, ProcUpd(p, Handed(p, ts)), 0)
+        \/ \E op \in StructOps(p) : PollInvokeS(p, ts, ProcUpd(p, Handed(p, ts)), 0, op)
         \/ PollQuiet(p, ts)
         \/ PollDefer(p, ts)
   \/ PollDone
   \/ AdvanceJump \/ AdvanceStep \/ AdvanceEnd
-  \/ \E p \in Procs : ApplyOne(p)
+  \/ \E p \in Procs : ApplyOne(p) \/ DropDue(p)
   \/ ApplyDone
   \/ StepsBegin \/ LayerOpen \/ LayerApplyOne \/ StepsEnd
   \/ \E s \in Steps : StepInvoke(s, StepUpd(s), 0)
@@ -530,12 +600,22 @@ C12_RowAtNow      == [][lastRow' # lastRow => lastRow' = now /\ lastRow' > lastR
 C12_RowPerBatch   ==
   [][(emitStep = 1 /\ pc = "emit" /\ pc' # "emit") => lastRow' = now]_vars
 
+\* C10: a created process starts at the time of its creation, with nothing in flight
+C10_FreshStartsNow ==
+  [][\A p \in fresh : (pc = "loop" /\ pc' = "poll") =>
+        (p \in live => (front'[p].time = now /\ front'[p].pend = "none"))]_vars
+\* C10: while polling, the engine knows exactly the processes in the hierarchy
+C10_FrontIsLive == pc = "poll" => (DOMAIN front = live /\ toPoll \subseteq live)
+\* C10: nothing of a deleted process stays in flight
+C10_DeletedNotInFlight ==
+  \A p \in DOMAIN front : (p \notin live /\ p \notin due) => front[p].pend # "upd"
+
 TypeOK ==
   /\ now \in 0..Horizon /\ endT \in 0..Horizon
   /\ pc \in {"construct", "csteps", "cemit", "idle", "loop", "poll",
              "advance", "apply", "steps", "layer", "emit"}
   /\ live \subseteq Procs /\ DOMAIN front \subseteq Procs
-  /\ toPoll \subseteq live /\ quiet \subseteq live /\ due \subseteq Procs
+  /\ toPoll \subseteq Procs /\ quiet \subseteq Procs /\ due \subseteq Procs
 
 Fairness == WF_vars(Internal)
 =============================================================================
